@@ -1,8 +1,13 @@
 import SafeC.Dispatch
+import SafeC.DispatchInplace
+import SafeC.DispatchTok
+import SafeC.DispatchQuery
+import SafeC.DispatchMem
+import SafeC.DispatchQuery2
 /-! chains the per-family dispatch tables (one `DispatchX.lean` per family) -/
 namespace SafeC.Driver
 
 def dispatch (fn : String) (c : Ctx) : Option (Prog Out) :=
-  dispatchCore fn c
+  dispatchCore fn c <|> dispatchInplace fn c <|> dispatchTok fn c <|> dispatchQuery fn c <|> dispatchMem fn c <|> dispatchQuery2 fn c
 
 end SafeC.Driver
